@@ -1,4 +1,5 @@
 import GrassProofs.Lemmas.CalcFns
+import GrassProofs.Lemmas.CalcKnown
 import GrassProofs.Lemmas.CalcParse2
 import GrassProofs.Lemmas.CalcParse3
 /-
@@ -357,6 +358,321 @@ theorem C16_known_units_plain_number (ρ : Env) (hw : ρ.wf) (cfg : Cfg) (hcss :
   have := C16_compile_value ρ hw cfg hcss src _ h rfl
   simpa [evalCalc] using this.symm
 
+/-! ### known, mutually convertible units reduce to a plain number (round 3: the whole unit table) -/
+
+/-- every pair of units of one convertible family has a table entry: lengths (px in cm mm q pt pc),
+    angles (deg grad rad turn), times (s ms), frequencies (Hz kHz), resolutions (dpi dpcm dppx). -/
+theorem C16_table_total (a b : BU) (hk : a.kind = b.kind)
+    (hc : a.kind = .absolute ∨ a.kind = .angle ∨ a.kind = .time ∨ a.kind = .frequency ∨ a.kind = .resolution) :
+    (table a b).isSome = true := by
+  cases a <;> cases b <;> simp [BU.kind] at hk hc <;> simp [table]
+
+example : table .rad .turn = some (2 * piF) ∧ table .q .pc = some ((1016/10) / 6) ∧
+    table .dppx .dpcm = some ((254/100) / 96) ∧ table .hz .khz = some 1000 := by
+  refine ⟨rfl, rfl, rfl, rfl⟩
+
+/-- outcome of an expression whose operands all have units compatible with `g`: a plain number in
+    such a unit, nothing simplified away into a `calc()`, no error other than a zero divisor. -/
+def KnownOut (g : CUnit) (r : Res Out) : Prop :=
+  (∃ n u, r = .ok ⟨.number n u, false⟩ ∧ compatible u g = true) ∨ r = .err .nonFinite
+
+theorem visit_operation_eq (cfg : Cfg) (imm : Bool) (l r : CalcArg) (op : Op) :
+    visitValue cfg imm (.operation l op r) =
+      (visitValue cfg imm l).bind fun l' => (visitValue cfg imm r).bind fun r' =>
+        (operate cfg imm op l'.arg r'.arg).bind fun o => .ok ⟨o.arg, o.coerced || l'.coerced || r'.coerced⟩ := by
+  simp only [visitValue]
+  cases visitValue cfg imm l <;> simp only [Res.bind]
+  cases visitValue cfg imm r <;> simp only []
+  rename_i l' r'
+  cases operate cfg imm op l'.arg r'.arg <;> simp only []
+
+theorem visit_calculation_eq (cfg : Cfg) (imm : Bool) (nm : CName) (as : CalcArgs) :
+    visitValue cfg imm (.calculation nm as) =
+      (visitArgs cfg nm.inMinMax as).bind fun p =>
+        (applyName cfg nm p.1).bind fun o => .ok ⟨o.arg, o.coerced || p.2⟩ := by
+  simp only [visitValue]
+  cases visitArgs cfg nm.inMinMax as <;> simp only [Res.bind]
+  rename_i p
+  obtain ⟨l, co⟩ := p
+  cases applyName cfg nm l <;> simp only []
+
+theorem known_sum (cfg : Cfg) (imm : Bool) (op : Op) (hop : op = .plus ∨ op = .minus) (g : CUnit)
+    (L R : Res Out) (hl : KnownOut g L) (hr : KnownOut g R) :
+    KnownOut g (L.bind fun l' => R.bind fun r' =>
+      (operate cfg imm op l'.arg r'.arg).bind fun o => .ok ⟨o.arg, o.coerced || l'.coerced || r'.coerced⟩) := by
+  rcases hl with ⟨a, ua, e, hua⟩ | e
+  · subst e
+    rcases hr with ⟨b, ub, e, hub⟩ | e
+    · subst e
+      obtain ⟨n, u, ho, hu⟩ := operate_sum_known cfg imm op hop a b ua ub (compatible_via _ _ g hua hub)
+      refine Or.inl ⟨n, u, ?_, ?_⟩
+      · simp [Res.bind, ho]
+      · rcases hu with e | e <;> subst e <;> assumption
+    · subst e; exact Or.inr (by simp [Res.bind])
+  · subst e; exact Or.inr (by simp [Res.bind])
+
+theorem known_mul_right (cfg : Cfg) (imm : Bool) (g : CUnit)
+    (L R : Res Out) (hl : KnownOut g L) (hr : KnownOut CUnit.none R) :
+    KnownOut g (L.bind fun l' => R.bind fun r' =>
+      (operate cfg imm .mul l'.arg r'.arg).bind fun o => .ok ⟨o.arg, o.coerced || l'.coerced || r'.coerced⟩) := by
+  rcases hl with ⟨a, ua, e, hua⟩ | e
+  · subst e
+    rcases hr with ⟨b, ub, e, hub⟩ | e
+    · subst e
+      have hb := compatible_none_right ub hub
+      refine Or.inl ⟨(numMul ⟨a, ua⟩ ⟨b, ub⟩).n, (numMul ⟨a, ua⟩ ⟨b, ub⟩).u, ?_, ?_⟩
+      · simp [Res.bind, operate, simplify]
+      · rw [numMul_scalar_right ⟨a, ua⟩ ⟨b, ub⟩ hb]; exact hua
+    · subst e; exact Or.inr (by simp [Res.bind])
+  · subst e; exact Or.inr (by simp [Res.bind])
+
+theorem known_mul_left (cfg : Cfg) (imm : Bool) (g : CUnit)
+    (L R : Res Out) (hl : KnownOut CUnit.none L) (hr : KnownOut g R) :
+    KnownOut g (L.bind fun l' => R.bind fun r' =>
+      (operate cfg imm .mul l'.arg r'.arg).bind fun o => .ok ⟨o.arg, o.coerced || l'.coerced || r'.coerced⟩) := by
+  rcases hl with ⟨a, ua, e, hua⟩ | e
+  · subst e
+    rcases hr with ⟨b, ub, e, hub⟩ | e
+    · subst e
+      have ha := compatible_none_right ua hua
+      refine Or.inl ⟨(numMul ⟨a, ua⟩ ⟨b, ub⟩).n, (numMul ⟨a, ua⟩ ⟨b, ub⟩).u, ?_, ?_⟩
+      · simp [Res.bind, operate, simplify]
+      · rw [numMul_scalar_left ⟨a, ua⟩ ⟨b, ub⟩ ha]; exact hub
+    · subst e; exact Or.inr (by simp [Res.bind])
+  · subst e; exact Or.inr (by simp [Res.bind])
+
+theorem known_div (cfg : Cfg) (imm : Bool) (g : CUnit)
+    (L R : Res Out) (hl : KnownOut g L) (hr : KnownOut CUnit.none R) :
+    KnownOut g (L.bind fun l' => R.bind fun r' =>
+      (operate cfg imm .div l'.arg r'.arg).bind fun o => .ok ⟨o.arg, o.coerced || l'.coerced || r'.coerced⟩) := by
+  rcases hl with ⟨a, ua, e, hua⟩ | e
+  · subst e
+    rcases hr with ⟨b, ub, e, hub⟩ | e
+    · subst e
+      have hb := compatible_none_right ub hub
+      rcases numDiv_scalar ⟨a, ua⟩ ⟨b, ub⟩ hb with hd | ⟨r, hd, hu⟩
+      · exact Or.inr (by simp [Res.bind, operate, simplify, hd])
+      · refine Or.inl ⟨r.n, r.u, ?_, ?_⟩
+        · simp [Res.bind, operate, simplify, hd]
+        · rw [hu]; exact hua
+    · subst e; exact Or.inr (by simp [Res.bind])
+  · subst e; exact Or.inr (by simp [Res.bind])
+
+theorem arityOk_len (nm : CName) (as : CalcArgs) (h : arityOk nm as = true) :
+    (nm = .calc → as.toList.length = 1) ∧ (nm = .clamp → as.toList.length = 3) ∧ 0 < as.toList.length := by
+  cases nm <;> rcases as with _ | ⟨a, _ | ⟨b, _ | ⟨c, _ | ⟨d, e⟩⟩⟩⟩ <;> simp_all [arityOk, CalcArgs.toList]
+
+theorem applyName_known (cfg : Cfg) (nm : CName) (g : CUnit) (l : List CalcArg)
+    (hc : nm = .calc → l.length = 1) (hcl : nm = .clamp → l.length = 3) (hpos : 0 < l.length)
+    (h : ∀ x ∈ l, ∃ n v, x = .number n v ∧ compatible v g = true) :
+    ∃ n u, applyName cfg nm l = .ok ⟨.number n u, false⟩ ∧ compatible u g = true := by
+  have hne : l ≠ [] := by intro e; subst e; simp at hpos
+  cases nm
+  · have h1 := hc rfl
+    rcases l with _ | ⟨x, _ | ⟨y, ys⟩⟩ <;> simp at h1
+    obtain ⟨n, v, e, hv⟩ := h x (List.mem_cons_self)
+    subst e
+    exact ⟨n, v, by simp [applyName, calcFn, simplify], hv⟩
+  · simpa [applyName] using extremumFn_known cfg false g l hne h
+  · simpa [applyName] using extremumFn_known cfg true g l hne h
+  · have h3 := hcl rfl
+    rcases l with _ | ⟨x, _ | ⟨y, _ | ⟨z, _ | ⟨w, ws⟩⟩⟩⟩ <;> simp at h3
+    obtain ⟨a, ua, e1, h1⟩ := h x (by simp)
+    obtain ⟨b, ub, e2, h2⟩ := h y (by simp)
+    obtain ⟨c, uc, e3, h3⟩ := h z (by simp)
+    subst e1 e2 e3
+    simpa [applyName] using clampFn_known cfg g a b c ua ub uc h1 h2 h3
+
+mutual
+theorem visitValue_known (cfg : Cfg) :
+    ∀ (a : CalcArg) (g : CUnit) (imm : Bool), plain g a = true → KnownOut g (visitValue cfg imm a)
+  | .number n u, g, imm, h => by
+    simp only [plain] at h
+    exact Or.inl ⟨n, u, by simp [visitValue], h⟩
+  | .str _ _, g, imm, h => by simp [plain] at h
+  | .interp _, g, imm, h => by simp [plain] at h
+  | .operation l .plus r, g, imm, h => by
+    simp only [plain, Bool.and_eq_true] at h
+    rw [visit_operation_eq]
+    exact known_sum cfg imm .plus (Or.inl rfl) g _ _ (visitValue_known cfg l g imm h.1) (visitValue_known cfg r g imm h.2)
+  | .operation l .minus r, g, imm, h => by
+    simp only [plain, Bool.and_eq_true] at h
+    rw [visit_operation_eq]
+    exact known_sum cfg imm .minus (Or.inr rfl) g _ _ (visitValue_known cfg l g imm h.1) (visitValue_known cfg r g imm h.2)
+  | .operation l .mul r, g, imm, h => by
+    simp only [plain, Bool.and_eq_true, Bool.or_eq_true] at h
+    rw [visit_operation_eq]
+    rcases h with h | h
+    · exact known_mul_right cfg imm g _ _ (visitValue_known cfg l g imm h.1) (visitValue_known cfg r CUnit.none imm h.2)
+    · exact known_mul_left cfg imm g _ _ (visitValue_known cfg l CUnit.none imm h.1) (visitValue_known cfg r g imm h.2)
+  | .operation l .div r, g, imm, h => by
+    simp only [plain, Bool.and_eq_true] at h
+    rw [visit_operation_eq]
+    exact known_div cfg imm g _ _ (visitValue_known cfg l g imm h.1) (visitValue_known cfg r CUnit.none imm h.2)
+  | .calculation nm as, g, imm, h => by
+    simp only [plain, Bool.and_eq_true] at h
+    obtain ⟨hc, hcl, hpos⟩ := arityOk_len nm as h.1
+    rw [visit_calculation_eq]
+    rcases visitArgs_known cfg as g nm.inMinMax h.2 with ⟨l, hl, hlen, hall⟩ | e
+    · rw [hl]
+      obtain ⟨n, u, ho, hu⟩ := applyName_known cfg nm g l (fun e => by rw [hlen]; exact hc e)
+        (fun e => by rw [hlen]; exact hcl e) (by rw [hlen]; exact hpos) hall
+      exact Or.inl ⟨n, u, by simp [Res.bind, ho], hu⟩
+    · rw [e]; exact Or.inr (by simp [Res.bind])
+theorem visitArgs_known (cfg : Cfg) :
+    ∀ (as : CalcArgs) (g : CUnit) (imm : Bool), plainArgs g as = true →
+      (∃ l, visitArgs cfg imm as = .ok (l, false) ∧ l.length = as.toList.length ∧
+        ∀ x ∈ l, ∃ n v, x = .number n v ∧ compatible v g = true) ∨ visitArgs cfg imm as = .err .nonFinite
+  | .nil, g, imm, _ => Or.inl ⟨[], by simp [visitArgs], rfl, by simp⟩
+  | .cons a as, g, imm, h => by
+    simp only [plainArgs, Bool.and_eq_true] at h
+    rcases visitValue_known cfg a g imm h.1 with ⟨n, u, ha, hu⟩ | ha
+    · rcases visitArgs_known cfg as g imm h.2 with ⟨l, hl, hlen, hall⟩ | has
+      · refine Or.inl ⟨.number n u :: l, by simp [visitArgs, ha, hl], by simp [CalcArgs.toList, hlen], ?_⟩
+        intro x hx
+        rcases List.mem_cons.mp hx with e | e
+        · exact ⟨n, u, e, hu⟩
+        · exact hall x e
+      · exact Or.inr (by simp [visitArgs, ha, has])
+    · exact Or.inr (by simp [visitArgs, ha])
+end
+
+theorem compatible_not_complex (u g : CUnit) (h : compatible u g = true) (hg : g.isComplex = false) :
+    u.isComplex = false := by
+  rcases (compatible_iff u g).mp h with e | ⟨hs, _⟩
+  · subst e; exact hg
+  · rcases u with ⟨_ | ⟨b, _ | ⟨b2, bs⟩⟩, _ | ⟨d, ds⟩⟩ <;> simp [convKind] at hs <;> simp [CUnit.isComplex]
+
+/-- **known units reduce** (first sentence of the property, over the whole unit table): an expression
+    built from numbers whose units are all compatible with one non-compound unit `g` — the same unit,
+    or plain units of one convertible family: px in cm mm q pt pc | deg grad rad turn | s ms | Hz kHz |
+    dpi dpcm dppx — with `+ -` between such operands, `* /` by unitless operands, and nested
+    calc/min/max/clamp, compiles to a plain number in such a unit (never to a `calc()`, never to an
+    error other than a zero divisor, never with the legacy coercion), whatever the switches. -/
+theorem C16_known_units_reduce (cfg : Cfg) (g : CUnit) (hg : g.isComplex = false) (src : CalcArg)
+    (h : plain g src = true) :
+    (∃ n u, compile cfg src = .ok ⟨.number n u, false⟩ ∧ compatible u g = true) ∨
+      compile cfg src = .err .nonFinite := by
+  rcases visitValue_known cfg src g false h with ⟨n, u, hv, hu⟩ | hv
+  · have := compatible_not_complex u g hu hg
+    exact Or.inl ⟨n, u, by simp [compile, hv, Res.bind, printable, this], hu⟩
+  · exact Or.inr (by simp [compile, hv, Res.bind])
+
+/-- … and that number is the value ordinary arithmetic gives, in every unit environment. -/
+theorem C16_known_units_value (ρ : Env) (hw : ρ.wf) (cfg : Cfg) (hcss : cfg.clampCss = true)
+    (g : CUnit) (hg : g.isComplex = false) (src : CalcArg) (h : plain g src = true) :
+    (∃ n u, compile cfg src = .ok ⟨.number n u, false⟩ ∧ compatible u g = true ∧
+      evalCalc ρ src = some (n * unitVal ρ u)) ∨ compile cfg src = .err .nonFinite := by
+  rcases C16_known_units_reduce cfg g hg src h with ⟨n, u, hc, hu⟩ | he
+  · exact Or.inl ⟨n, u, hc, hu, C16_known_units_plain_number ρ hw cfg hcss src n u hc⟩
+  · exact Or.inr he
+
+private def knownSrc : CalcArg :=
+  .calculation .max (.cons (.operation (.number 1 (CUnit.single .rad)) .plus
+      (.operation (.number 2 (CUnit.single .grad)) .mul (.number 3 CUnit.none)))
+    (.cons (.calculation .clamp (.cons (.number 1 (CUnit.single .turn)) (.cons (.number 500 (CUnit.single .deg))
+      (.cons (.number 450 (CUnit.single .grad)) .nil)))) .nil))
+
+example : plain (CUnit.single .deg) knownSrc = true := by decide +kernel
+example : compile Cfg.now knownSrc = .ok ⟨.number 450 (CUnit.single .grad), false⟩ := by decide +kernel
+example : plain (CUnit.single .dppx) (.calculation .calc (.cons (.operation (.number 96 (CUnit.single .dpi)) .minus
+    (.number 1 (CUnit.single .dpcm))) .nil)) = true := by decide +kernel
+
+/-! ### a zero divisor (round 3): explicit guard and class -/
+
+/-- the model leaves the finite numbers exactly at a zero divisor … -/
+theorem C16_div_nonfinite_iff (a b : Num) : numDiv a b = .err .nonFinite ↔ b.n = 0 := by
+  unfold numDiv
+  constructor
+  · intro h; split at h
+    · assumption
+    · split at h <;> cases h
+  · intro h; simp [h]
+
+/-- … and an operation stops with `nonFinite` only for `number / number` with a zero divisor (sums and
+    products of finite numbers stay finite; `verify_compatible_numbers` never reports it). -/
+theorem C16_operate_nonfinite_iff (cfg : Cfg) (imm : Bool) (op : Op) (l r : CalcArg) :
+    operate cfg imm op l r = .err .nonFinite ↔
+      op = .div ∧ ∃ a ua ub, simplify l = .number a ua ∧ simplify r = .number 0 ub := by
+  constructor
+  · intro h
+    unfold operate at h
+    simp only [] at h
+    generalize simplify l = L at h ⊢
+    generalize simplify r = R at h ⊢
+    have hv : ∀ (xs : List CalcArg) (f : Unit → Res Out), (∀ u, f u ≠ .err .nonFinite) →
+        (verifyCompatible cfg.strict xs).bind f ≠ .err .nonFinite := by
+      intro xs f hf
+      unfold verifyCompatible
+      split
+      · simp [Res.bind]
+      · split
+        · simp [Res.bind]
+        · simpa [Res.bind] using hf ()
+    have hsum : ∀ (x y : Num) (f : Num → Res Out), (∀ n, f n ≠ .err .nonFinite) →
+        (numAdd x y).bind f ≠ .err .nonFinite ∧ (numSub x y).bind f ≠ .err .nonFinite := by
+      intro x y f hf
+      constructor
+      · unfold numAdd; split; · simpa [Res.bind] using hf _
+        split; · simpa [Res.bind] using hf _
+        split; · simpa [Res.bind] using hf _
+        split
+        · simpa [Res.bind] using hf _
+        · simp [Res.bind]
+      · unfold numSub; split; · simpa [Res.bind] using hf _
+        split; · simpa [Res.bind] using hf _
+        split; · simpa [Res.bind] using hf _
+        split
+        · simpa [Res.bind] using hf _
+        · simp [Res.bind]
+    cases op <;> cases L <;> cases R <;> simp only [] at h
+    case div.number.number a ua b ub =>
+      simp at h
+      refine ⟨rfl, a, ua, ub, rfl, ?_⟩
+      cases hd : numDiv ⟨a, ua⟩ ⟨b, ub⟩ with
+      | ok r => simp [hd, Res.bind] at h
+      | panic => simp [hd, Res.bind] at h
+      | err e =>
+        simp [hd, Res.bind] at h
+        subst h
+        have := (C16_div_nonfinite_iff ⟨a, ua⟩ ⟨b, ub⟩).mp hd
+        simp at this; subst this; rfl
+    case plus.number.number a ua b ub =>
+      exfalso
+      by_cases hg : (if imm = true then comparable ua ub else compatible ua ub) = true
+      · rw [if_pos hg] at h
+        simp only [if_true] at h
+        exact (hsum ⟨a, ua⟩ ⟨b, ub⟩ _ (fun n => by simp)).1 h
+      · rw [if_neg hg] at h
+        exact hv _ _ (fun u => by split <;> simp) h
+    case minus.number.number a ua b ub =>
+      exfalso
+      by_cases hg : (if imm = true then comparable ua ub else compatible ua ub) = true
+      · rw [if_pos hg] at h
+        simp only [if_false, reduceCtorEq] at h
+        exact (hsum ⟨a, ua⟩ ⟨b, ub⟩ _ (fun n => by simp)).2 h
+      · rw [if_neg hg] at h
+        exact hv _ _ (fun u => by split <;> simp) h
+    all_goals
+      exfalso
+      first
+      | (cases h; done)
+      | (simp at h; done)
+      | (exact hv _ _ (fun u => by first | (split <;> simp) | simp) h)
+  · rintro ⟨e, a, ua, ub, hl, hr⟩
+    subst e
+    simp [operate, hl, hr, numDiv, Res.bind]
+
+/-- IEEE class of `x / 0`: the sign of the dividend, NaN for `0 / 0`. -/
+theorem C16_div_zero_class (x : Rat) :
+    (divZeroClass x = .pinf ↔ 0 < x) ∧ (divZeroClass x = .ninf ↔ x < 0) ∧ (divZeroClass x = .nan ↔ x = 0) := by
+  unfold divZeroClass
+  refine ⟨?_, ?_, ?_⟩ <;> split <;> (try split) <;> simp_all <;> grind
+
+example : nonFiniteTop Cfg.now (.calculation .calc (.cons (.operation
+    (.operation (.number 1 (CUnit.single .inch)) .minus (.number 100 (CUnit.single .px))) .div (.number 0 CUnit.none)) .nil))
+    = some (.ninf, CUnit.single .inch, false) := by decide +kernel
+
 /-! ### incompatible units are rejected -/
 
 /-- the relation `verify_compatible_numbers` enforces between two arguments -/
@@ -469,12 +785,19 @@ example : parseToks (pr (.operation (.number 1 (CUnit.single .px)) .plus
 /-
   Outside the model (tested by the correspondence, not proved):
     * f64 arithmetic and the 10-digit printing (the model is exact; the check bounds the error);
-    * units other than px in cm mm pt em rem vw % deg turn s ms (q, pc, rad/grad with π, Hz, dpi, …, unknown units);
+    * units outside the conversion table other than em rem vw % (ex ch vh vmin vmax lh fr …, unknown units);
+    * `rad`: π is the double `std::f64::consts::PI` (`piF`), as in the code's table, not the real π;
     * opaque operands are values: `var()`/interpolation text is not re-tokenised (an argument list
       containing `#{}` at depth 0 is one string for grass; the check compares it with the textual
       substitution);
-    * division by zero: the model stops with `nonFinite`, grass continues with IEEE ±Infinity/NaN
-      (and prints `Infinitypx` / `NaN`); the theorems speak about `ok` results only;
+    * division by zero: the model stops with `nonFinite` exactly at a zero divisor
+      (`C16_operate_nonfinite_iff`); grass continues with IEEE ±Infinity/NaN through later operations
+      and prints `Infinitypx` / `NaNpx` (not CSS; dart-sass prints `calc(infinity * 1px)`); only the
+      first non-finite number (`nonFiniteTop`) is modelled and compared, the propagation is covered by
+      "no panic" in the correspondence only; the value theorems speak about `ok` results;
+    * the fallback of `min()`/`max()` to the Sass functions when the arguments are not calculation
+      syntax (parse/value.rs:1727) and the textual treatment of an argument list containing `#{}`
+      (parse/value.rs:1442; compared textually by the check);
     * `@supports` declarations (`simplify = false`) and `as_slash` numbers.
 -/
 
